@@ -97,11 +97,11 @@ func miscFrame(id uint32, variant int, kind string, root string, handles []strin
 }
 
 type pipeResult struct {
-	out      []byte
-	timeout  bool
-	nreq     int
-	nresp    int
-	sess     *srvSession
+	out     []byte
+	timeout bool
+	nreq    int
+	nresp   int
+	sess    *srvSession
 }
 
 // runPipeline replays one scenario on a fresh server.
